@@ -175,6 +175,30 @@ type ipoeEnv struct {
 	wedged bool // a termination path panicked while holding a server lock: server state must not be read any more
 	real   bool // not inside a synctest bubble (real sockets, wall clock)
 	by     []*dclient
+	// alt holds kernel maps that replace the loaded object's maps of the same name for this
+	// environment (fault injection: a real hash map of max_entries 1 that is already full)
+	alt map[string]*ebpf.Map
+	// prevSid is the accounting session id of the session that a lapse-rediscover path ended;
+	// reoffer is the address reserved for the client's next session by that DISCOVER
+	prevSid string
+	reoffer net.IP
+	newSid  string
+}
+
+// kmap returns the kernel map the environment's managers were given under this name.
+func (e *ipoeEnv) kmap(group, name string) *ebpf.Map {
+	if m := e.alt[name]; m != nil {
+		return m
+	}
+	switch group {
+	case "dhcp":
+		return e.ks.dhcp.Coll.Maps[name]
+	case "qos":
+		return e.ks.qos.Coll.Maps[name]
+	case "nat":
+		return e.ks.nat.Coll.Maps[name]
+	}
+	return nil
 }
 
 func newIPoEEnv(t *testing.T, ks *kernels, v ipoeVariant, network, gateway string, lease time.Duration) *ipoeEnv {
@@ -367,13 +391,13 @@ func (e *ipoeEnv) census() *census {
 	}
 	c.tab("pool.total")["allocated+available+unavailable"] = fmt.Sprint(len(alloc) + len(avail) + len(unavail))
 	for _, n := range censusMaps["dhcp"] {
-		c.T["map:"+n] = dumpMap(e.ks.dhcp.Coll.Maps[n], 13) // pool id, address, vlan id, class: the expiry that follows changes with every renewal
+		c.T["map:"+n] = dumpMap(e.kmap("dhcp", n), 13) // pool id, address, vlan id, class: the expiry that follows changes with every renewal
 	}
 	for _, n := range censusMaps["qos"] {
-		c.T["map:"+n] = dumpMap(e.ks.qos.Coll.Maps[n], 0)
+		c.T["map:"+n] = dumpMap(e.kmap("qos", n), 0)
 	}
 	for _, n := range censusMaps["nat"] {
-		c.T["map:"+n] = dumpMap(e.ks.nat.Coll.Maps[n], 8) // public address and port block
+		c.T["map:"+n] = dumpMap(e.kmap("nat", n), 8) // public address and port block
 	}
 	if e.qm != nil {
 		c.tab("qos.count")["subscribers"] = fmt.Sprint(e.qm.GetSubscriberCount())
@@ -405,6 +429,7 @@ var clauseOfTable = map[string]string{
 var componentOfPath = map[string]string{
 	"release": "dhcp.Server.handleRelease", "decline": "dhcp.Server.handleDecline", "expiry": "dhcp.Server.cleanupExpiredLeases",
 	"auth-reject": "dhcp.Server.handleRequest", "shutdown": "dhcp.Server.Start",
+	"lapse-rediscover": "dhcp.Server.reclaimLapsedLease", "lapse-rediscover-request": "dhcp.Server.reclaimLapsedLease",
 }
 
 type ipoeCell struct {
@@ -628,6 +653,32 @@ func (e *ipoeEnv) terminate(sub *dclient, path string) string {
 	case "expiry", "cleanup":
 		e.advancePastLease()
 		return e.cleanup()
+	case "lapse-rediscover", "lapse-rediscover-request":
+		// the lease lapses, the cleanup tick has not run yet, and the same client starts over with DISCOVER
+		// (handleDiscover -> reclaimLapsedLease ends the old session); optionally it then REQUESTs the new
+		// offer (a new session) and gives that one up again with RELEASE
+		e.advancePastLease()
+		e.prevSid = sub.sid
+		r, p := e.send(e.msg(sub, dhcpv4.MessageTypeDiscover, nil, nil, sub.cid))
+		if p != "" {
+			e.trace = append(e.trace, sub.Name+" DISCOVER after its lease lapsed (no cleanup tick yet)"+panicNote(p))
+			return p
+		}
+		if r == nil || r.MessageType() != dhcpv4.MessageTypeOffer {
+			e.trace = append(e.trace, sub.Name+" DISCOVER after its lease lapsed (no cleanup tick yet) -> no offer")
+			return ""
+		}
+		sub.ip, sub.bound = r.YourIPAddr, false
+		e.reoffer = r.YourIPAddr
+		e.trace = append(e.trace, fmt.Sprintf("%s DISCOVER after its lease lapsed (no cleanup tick yet) -> OFFER %v", sub.Name, sub.ip))
+		if path == "lapse-rediscover-request" {
+			if e.request(sub, sub.cid) == "ack" {
+				e.newSid = sub.sid
+				e.reoffer = nil
+				return e.release(sub)
+			}
+		}
+		return ""
 	}
 	return ""
 }
@@ -689,6 +740,12 @@ func runIPoECell(t *testing.T, ks *kernels, v ipoeVariant, k ipoeKind, cell ipoe
 			run.Violation(comp, "terminates-without-crash", "panic/"+v.Name+"/"+phaseOf(cell.Prefix), fmt.Sprintf("%s panicked: %s", cell.Path, panicText), wit())
 		}
 		s2 := e.census()
+		if e.reoffer != nil {
+			// the address reserved by the client's new DISCOVER belongs to its next session, not to the one that ended
+			delete(s2.tab("pool.allocated"), sub.mac.String())
+			s2.tab("pool.available")[e.reoffer.String()] = ""
+			run.Count("ipoe_lapse_rediscover_new_offer_observed", 1)
+		}
 		run.Eval()
 		run.Count("ipoe_cells", 1)
 		run.Count(fmt.Sprintf("ipoe_cells_with_%d_bystanders", nBy), 1)
@@ -702,7 +759,19 @@ func runIPoECell(t *testing.T, ks *kernels, v ipoeVariant, k ipoeKind, cell ipoe
 			run.Nontrivial("ipoe|" + cell.String())
 		}
 		judgeIPoE(cell, sub, s0, s2, true, wit)
-		starts, stops, _ := judgeAcct(cell, comp, sub, wit, true)
+		acctSub := sub
+		if e.prevSid != "" {
+			c := *sub
+			c.sid = e.prevSid // the session that the lapse ended, not the one opened afterwards
+			acctSub = &c
+		}
+		starts, stops, _ := judgeAcct(cell, comp, acctSub, wit, true)
+		if e.newSid != "" && e.newSid != e.prevSid {
+			run.Count("ipoe_lapse_rediscover_new_session_observed", 1)
+			if st, sp := rad.counts(e.newSid); st >= 1 && sp != 1 {
+				run.Violation(componentOfPath["release"], "one-stop-per-start", fmt.Sprintf("stops=%d/session-opened-after-lapse", sp), fmt.Sprintf("the session %s the client opened after its lapsed lease was reclaimed, and released again: %d Start, %d Stop", e.newSid, st, sp), wit())
+			}
+		}
 		run.Count("ipoe_acct_starts_observed", starts)
 		run.Count("ipoe_acct_stops_observed", stops)
 		if rel, _, _ := s2.diff(s1); true {
@@ -716,6 +785,7 @@ func runIPoECell(t *testing.T, ks *kernels, v ipoeVariant, k ipoeKind, cell ipoe
 			_, stops1 := rad.counts(sub.sid)
 			p2 := e.terminate(sub, cell.Second)
 			comp2 := componentOfPath[map[string]string{"release": "release", "decline": "decline", "cleanup": "expiry"}[cell.Second]]
+			e.reoffer = nil
 			if p2 != "" {
 				run.Violation(comp2, "second-termination-no-effect", "panic/"+v.Name, fmt.Sprintf("%s after %s panicked: %s", cell.Second, cell.Path, p2), wit())
 			}
@@ -779,6 +849,16 @@ func TestIPoE(t *testing.T) {
 					}
 				}
 			}
+			// the lease lapses, no cleanup tick yet, the same client DISCOVERs again (and optionally opens and releases a new session)
+			for _, prefix := range []string{"bound", "renewed"} {
+				if k.Change && prefix == "bound" {
+					continue
+				}
+				for _, ps := range [][2]string{{"lapse-rediscover", "none"}, {"lapse-rediscover", "cleanup"}, {"lapse-rediscover-request", "none"}, {"lapse-rediscover-request", "release"}} {
+					runIPoECell(t, ks, v, k, ipoeCell{v.Name, k.Name, prefix, ps[0], ps[1]}, n%97 == 5, n)
+					n++
+				}
+			}
 			if v.Radius == "auth" {
 				for _, second := range []string{"none", "release", "decline", "cleanup"} {
 					runIPoECell(t, ks, v, k, ipoeCell{v.Name, k.Name, "offer-only", "auth-reject", second}, false, n)
@@ -824,7 +904,7 @@ func TestIPoEConcurrentPairs(t *testing.T) {
 	v := ipoeVariants[0]
 	pairs := [][2]string{{"release", "release"}, {"release", "decline"}, {"decline", "decline"}, {"release", "expiry"}, {"decline", "expiry"}}
 	kinds := []ipoeKind{ipoeKinds[0], ipoeKinds[1]}
-	reps := run.Pick(40, 400)
+	reps := run.Pick(30, 320) // quick: 30 schedules per pair and kind (the held-point overlap cases of overlap_test.go carry the deterministic part)
 	fillers := 150
 	for _, k := range kinds {
 		// reference outcomes of each path alone
